@@ -166,3 +166,40 @@ pub fn normalize_tree(a: &crate::adoc::ANode) -> crate::adoc::ANode {
     });
     b
 }
+
+/// put a carriage return into the body of one comment or processing instruction: the statements treat those bodies
+/// as verbatim strings of XML Chars (no line-end normalisation there)
+pub fn inject_cr(a: &mut crate::adoc::ANode, rng: &mut crate::rng::Rng) -> bool {
+    use crate::adoc::*;
+    let mut n = 0;
+    a.walk(&mut |x| {
+        if x.kind == AKind::Comment || (x.kind == AKind::Pi && x.data.is_some()) {
+            n += 1;
+        }
+    });
+    if n == 0 {
+        return false;
+    }
+    let target = rng.below(n);
+    let piece = *rng.pick(&["\rz", "\r\nz", "y\r", "\r\r\n"]);
+    let mut seen = 0;
+    a.walk_mut(&mut |x| {
+        if x.kind == AKind::Comment {
+            if seen == target {
+                x.text.push_str(piece);
+                if x.text.ends_with('-') {
+                    x.text.push('b');
+                }
+            }
+            seen += 1;
+        } else if x.kind == AKind::Pi && x.data.is_some() {
+            if seen == target {
+                if let Some(d) = x.data.as_mut() {
+                    d.push_str(piece);
+                }
+            }
+            seen += 1;
+        }
+    });
+    true
+}
